@@ -175,6 +175,55 @@ def opaque_writers(v, ps, root=None):
     return out
 
 
+def value_not_redrawn(ps, arr, is_draw_call):
+    """a statement in a loop that stores a random draw into arr[...]: the call that draws must be evaluated inside the same loop
+    nest (once per element).  `std::fill_n(p, n, draw())` evaluates its argument once: every element gets the same value.
+    -> the first offending store piece, or None"""
+    for p in ps:
+        if p["kind"] != "store" or p["lv"][0] != "idx" or p["lv"][1] != arr or not p["loops"]:
+            continue
+        lv = [l.get("var") for l in p["loops"]]
+        if not any(c["kind"] == "call" and is_draw_call(c) and [l.get("var") for l in c["loops"]][:len(lv)] == lv for c in ps):
+            return p
+    return None
+
+
+def noise_added_later(ps, arr, draw_name="gaussian32"):
+    """some statement updates arr[...] with a draw applied to the element's own content (`b[j] = gaussian32(b[j], alpha)`,
+    `b[j] += noise`): the array is not initialised with the noise but receives it in a later pass -- another arrangement of the
+    same sum, which a rule that looks for `b[j] = noise` first does not decide"""
+    for p in ps:
+        if p["kind"] == "store" and p["lv"][0] == "idx" and p["lv"][1] == arr and isinstance(p.get("val"), tuple):
+            for st in sym.subterms(p["val"]):
+                if st[0] == "call" and st[1] == draw_name and (p["op"] in ("+=", "-=") or (st[2] and st[2][0] != ZERO)):
+                    return p
+    return None
+
+
+def is_gaussian_draw(ps, val, alpha=None):
+    """val is a fresh centred Gaussian of the given standard deviation on the torus: gaussian32(0, alpha), or what gaussian32 itself
+    computes written out -- dtot32 of a draw, with the process generator, from a std::normal_distribution that THIS call constructed
+    as (0, alpha) in an automatic variable (a static one is constructed once per process and keeps the first call's alpha)"""
+    while isinstance(val, tuple) and val and val[0] == "cast":
+        val = val[2]
+    if not (isinstance(val, tuple) and val and val[0] == "call"):
+        return False
+    if val[1] == "gaussian32":
+        return len(val[2]) == 2 and val[2][0] == ZERO and (alpha is None or val[2][1] == alpha)
+    if val[1] == "dtot32" and len(val[2]) == 1:
+        d = val[2][0]
+        if isinstance(d, tuple) and d and d[0] == "call" and d[1].startswith("std::normal_distribution") and d[1].endswith("operator()") and len(d[2]) == 2 \
+                and d[2][1] == ("glob", "generator") and d[2][0][0] == "var":
+            obj = d[2][0]
+            for c in ps:
+                if c["kind"] == "call" and c["name"].startswith("std::normal_distribution") and c["name"].endswith("::normal_distribution") and \
+                        (c.get("eff") or {}).get("this") == sym.addr(obj):
+                    a = [x for x in c["args"] if x is not None]
+                    zero = len(a) == 2 and (a[0] == ZERO or (a[0][0] == "float" and a[0][1] == 0))
+                    return zero and (alpha is None or a[1] == alpha)
+    return False
+
+
 def show_opaque(ps_):
     return ", ".join("%s at line %s" % (p.get("name") or p["kind"], p["line"]) for p in ps_[:3])
 
